@@ -381,16 +381,6 @@ Definition orm_count_sl (d : db) (q : oq) (off : nat) (lim : option nat) : nat :
 Definition orm_exists_sl (d : db) (q : oq) (off : nat) (lim : option nat) : bool :=
   match slice off lim (core_exec d (orm_to_core d q)) with [] => false | _ => true end.
 
-(* legacy Query.exists() re-selects "SELECT 1" from the query and adds select_from(<first entity>): for a
-   Query.union() the first entity is the plain class, not the union subquery, so the EXISTS runs over the
-   cartesian product  (union) x p  with the LIMIT / OFFSET of the query applied to that product *)
-Definition is_union (q : oq) : bool := match q with QUnion _ _ => true | _ => false end.
-Definition orm_exists_legacy (d : db) (q : oq) (off : nat) (lim : option nat) : bool :=
-  if is_union q
-  then match slice off lim (flat_map (fun r => map (fun _ => r) (ps d)) (core_exec d (orm_to_core d q))) with
-       | [] => false | _ => true end
-  else orm_exists_sl d q off lim.
-
 Definition item_val (i : item) : val := match i with IEnt _ pk => Some pk | INone => None | IVal v => v end.
 
 (* ================= 3. relational meaning on the object graph ================= *)
